@@ -63,7 +63,7 @@ func (p *prefixStrat) next(n int) int {
 	return v
 }
 func (p *prefixStrat) PickThread(o []int, cur int, curOK bool, step int) int { return p.next(len(o)) }
-func (p *prefixStrat) Choose(kind string, t int, o []int) int                 { return p.next(len(o)) }
+func (p *prefixStrat) Choose(kind string, t int, o []int) int                { return p.next(len(o)) }
 
 // randStrat: uniformly random thread and data choices; with prio it is priority based (PCT-like): every
 // thread gets a random priority, the highest runnable one runs, and at a few random steps the running
@@ -233,8 +233,8 @@ func dfs(run func(vsync.Strategy) *vsync.Outcome, bound, maxRuns int, visit func
 
 type pendingCmp struct {
 	req, implEvents, implTail string
-	input                      map[string]string
-	what                       string
+	input                     map[string]string
+	what                      string
 }
 
 var cmpBatch []pendingCmp
@@ -260,7 +260,7 @@ func flushCmp() {
 		if !sameAnswer(got, p.implEvents, p.implTail) {
 			res.Count("correspondence:mismatch")
 			res.Violate(common.Violation{Kind: "correspondence", Oracle: p.what, Input: p.input, Model: got, Impl: want,
-				Key: p.what + ":" + p.input["cfg"] + ":" + p.input["decisions"],
+				Key:    p.what + ":" + p.input["cfg"] + ":" + p.input["decisions"],
 				Detail: "the extracted model replaying the schedule observed on the code gives a different event trace / runnable sets / final state"})
 		} else {
 			res.Count("correspondence:agree")
@@ -408,21 +408,87 @@ func (c workCfg) stepBound() int {
 	return sum
 }
 
+// Items.  The model's items are numbers; on the implementation item id i is the Go value items.val(i), of
+// mixed dynamic types chosen so that DISTINCT items (distinct under == on interface values, which is what a
+// map[any]bool keys on) share their printed form: within a group g = i/7 the kinds are
+//
+//	0 int(g)   1 "g"   2 int64(g)   3 [2]int{g,g}   4 "[g g]"   5 and 6 two different pointers to pt{g}.
+//
+// Value kinds are built afresh on every Add, so duplicate Adds hand over equal but not identical values
+// (they must be ignored); the pointers are fixed per run.  f maps what it receives back to the id by identity.
+type pt struct{ v int }
+
+type itemTable struct {
+	ptrs map[int]*pt
+	ids  map[any]int
+}
+
+func newItems(n int) *itemTable {
+	t := &itemTable{ptrs: map[int]*pt{}, ids: map[any]int{}}
+	for i := 0; i < n; i++ {
+		if k := i % 7; k == 5 || k == 6 {
+			t.ptrs[i] = &pt{i / 7}
+		}
+		t.ids[t.val(i)] = i
+	}
+	if len(t.ids) != n {
+		panic("harness: item values are not pairwise distinct")
+	}
+	return t
+}
+
+func (t *itemTable) val(i int) any {
+	g := i / 7
+	switch i % 7 {
+	case 0:
+		return g
+	case 1:
+		return strconv.Itoa(g)
+	case 2:
+		return int64(g)
+	case 3:
+		return [2]int{g, g}
+	case 4:
+		return fmt.Sprintf("[%d %d]", g, g)
+	}
+	return t.ptrs[i]
+}
+
+func itemsDesc(n int) string {
+	kinds := []string{"int(%d)", "string %q", "int64(%d)", "[2]int{%[1]d,%[1]d}", "string \"[%[1]d %[1]d]\"", "pointer A to pt{%d}", "pointer B to pt{%d}"}
+	var p []string
+	for i := 0; i < n && i < 14; i++ {
+		g := i / 7
+		var v any = g
+		if i%7 == 1 {
+			v = strconv.Itoa(g)
+		}
+		p = append(p, strconv.Itoa(i)+"="+fmt.Sprintf(kinds[i%7], v))
+	}
+	return "item ids stand for the Go values " + strings.Join(p, ", ") + " (and so on, 7 kinds per group)"
+}
+
 func runWork(c workCfg, st vsync.Strategy) *vsync.Outcome { return runWorkMode(c, st, false) }
 
 // runWorkMode: fine = every operation of the shim is a scheduling point (a thread can be pre-empted inside a
 // critical section, between any two synchronisation operations); used with the direct oracles only.
 func runWorkMode(c workCfg, st vsync.Strategy, fine bool) *vsync.Outcome {
 	w := &parv.Work{}
+	items := newItems(len(c.g))
 	for _, i := range c.inits {
-		w.Add(i) // single goroutine, before Do: not scheduled
+		w.Add(items.val(i)) // single goroutine, before Do: not scheduled
 	}
 	f := func(item any) {
-		i := item.(int)
+		i, ok := items.ids[item]
+		if !ok {
+			i = -1 // f was handed something that was never added
+		}
 		vsync.Trace("b:" + strconv.Itoa(i))
-		for _, ch := range c.g[i] {
-			vsync.Trace("a:" + strconv.Itoa(ch))
-			w.Add(ch)
+		if ok {
+			for _, ch := range c.g[i] {
+				vsync.Trace("a:" + strconv.Itoa(ch))
+				w.Add(items.val(ch))
+			}
 		}
 		vsync.Yield("fe")
 		vsync.Trace("e:" + strconv.Itoa(i))
@@ -491,6 +557,9 @@ func workOracles(c workCfg, out *vsync.Outcome) (fs []finding) {
 				}
 			}
 		}
+	}
+	if begun[-1] > 0 {
+		bad("work/exactly-once", "f was called with a value that was never added")
 	}
 	if out.Deadlock {
 		bad("work/no-deadlock", fmt.Sprintf("DEADLOCK: no goroutine runnable, threads %v have not returned (Do returned: %v)", out.Blocked, doret))
@@ -613,7 +682,7 @@ func oneWork(c workCfg, out *vsync.Outcome, src string) bool {
 		}
 		_, sched2, _, _, _ := workEvents(c, bestOut)
 		in2 := map[string]string{"prop": "C09", "cfg": c.String(), "decisions": dots(best), "schedule": sched2, "source": src,
-			"text": fmt.Sprintf("Work.Do(n=%d), children=%v, initial Adds=%v; schedule (thread:choice) %s", c.n, c.g, c.inits, sched2)}
+			"text": fmt.Sprintf("Work.Do(n=%d), children=%v, initial Adds=%v; %s; schedule (thread:choice) %s", c.n, c.g, c.inits, itemsDesc(len(c.g)), sched2)}
 		for _, f := range fs {
 			violate(f.oracle, f.detail, in2)
 		}
@@ -647,31 +716,29 @@ func oneWork(c workCfg, out *vsync.Outcome, src string) bool {
 	return ok
 }
 
-func smallGraphs() [][][]int {
-	return [][][]int{
-		{{}},                           // one item
-		{{1}, {}},                      // chain of 2
-		{{1, 2}, {}, {}},               // fan-out
-		{{1, 1, 0}, {0}},               // duplicate Adds and a cycle
-		{{1, 2}, {2, 3}, {3}, {}},      // diamond with duplicates (the Coq example)
-		{{1}, {2}, {3}, {4}, {}},       // chain of 5: workers park and are woken repeatedly
-		{{1, 2, 3, 4}, {}, {}, {}, {}}, // wide fan-out: more work than workers
-		{{}, {}, {}},                   // several initial items, no children
-		{{3}, {3}, {4}, {4}, {}},       // two roots joining
+type smallCfg struct {
+	g     [][]int
+	inits []int
+}
+
+func smallGraphs() []smallCfg {
+	return []smallCfg{
+		{[][]int{{}}, nil},                                   // Do on an EMPTY work set: returns at once, f never called
+		{[][]int{{1}, {}}, nil},                              // empty initial set, items exist but are never added
+		{[][]int{{}}, []int{0}},                              // one item
+		{[][]int{{1}, {}}, []int{0}},                         // chain of 2
+		{[][]int{{1, 2}, {}, {}}, []int{0}},                  // fan-out; the three items print alike (0, "0", int64 0)
+		{[][]int{{1, 1, 0}, {0}}, []int{0}},                  // duplicate Adds and a cycle
+		{[][]int{{1, 2}, {2, 3}, {3}, {}}, []int{0, 0}},      // diamond with duplicates (the Coq example)
+		{[][]int{{1}, {2}, {3}, {4}, {}}, []int{0}},          // chain of 5: workers park and are woken repeatedly
+		{[][]int{{1, 2, 3, 4}, {}, {}, {}, {}}, []int{0}},    // wide fan-out: more work than workers
+		{[][]int{{}, {}, {}}, []int{0, 1, 2, 1}},             // several initial items, no children
+		{[][]int{{3}, {3}, {4}, {4}, {}}, []int{0, 1, 2}},    // two roots joining
+		{[][]int{{}, {}, {}, {}, {}, {6}, {5}}, []int{5, 5}}, // two different pointers to equal structs adding each other
 	}
 }
 
-func initsFor(g [][]int, k int) []int {
-	switch k {
-	case 7:
-		return []int{0, 1, 2, 1}
-	case 8:
-		return []int{0, 1, 2}
-	case 4:
-		return []int{0, 0}
-	}
-	return []int{0}
-}
+func initsFor(sc smallCfg, k int) []int { return sc.inits }
 
 func modelExplore(req, key string) {
 	ans := mdl.Ask1(req)
@@ -689,10 +756,10 @@ func mainWork() {
 	r := common.NewRNG(fl.Seed)
 	exhaustiveAll := true
 	// 1. the model's own state space on the small configurations
-	for k, g := range smallGraphs() {
+	for k, sg := range smallGraphs() {
 		for n := 1; n <= 3; n++ {
-			c := workCfg{n: n, g: g, inits: initsFor(g, k)}
-			if !thorough && n == 3 && len(g) >= 5 {
+			c := workCfg{n: n, g: sg.g, inits: initsFor(sg, k)}
+			if !thorough && n == 3 && len(sg.g) >= 5 {
 				continue
 			}
 			modelExplore(fmt.Sprintf("workexplore %d %s %s %d", n, c.graphStr(), dots(c.inits), 3000000), c.String())
@@ -703,9 +770,9 @@ func mainWork() {
 	if thorough {
 		bound, maxRuns = 3, 60000
 	}
-	for k, g := range smallGraphs() {
+	for k, sg := range smallGraphs() {
 		for n := 1; n <= 3; n++ {
-			c := workCfg{n: n, g: g, inits: initsFor(g, k)}
+			c := workCfg{n: n, g: sg.g, inits: initsFor(sg, k)}
 			runs, complete := dfs(func(st vsync.Strategy) *vsync.Outcome { return runWork(c, st) }, bound, maxRuns,
 				func(out *vsync.Outcome) bool { return oneWork(c, out, "dfs") && !enough() })
 			if enough() {
@@ -750,7 +817,7 @@ func mainWork() {
 			}
 			if st.diverged != "" {
 				res.Violate(common.Violation{Kind: "correspondence", Oracle: "work/model-schedule-on-code",
-					Input: map[string]string{"prop": "C09", "cfg": cfgs[i].String(), "schedule": strings.TrimPrefix(f[0], "sched="), "decisions": dots(chosen(out.Decisions))},
+					Input:  map[string]string{"prop": "C09", "cfg": cfgs[i].String(), "schedule": strings.TrimPrefix(f[0], "sched="), "decisions": dots(chosen(out.Decisions))},
 					Detail: st.diverged, Key: "model-sched:" + cfgs[i].String() + ":" + f[0]})
 			}
 			oneWork(cfgs[i], out, "model-walk")
@@ -801,12 +868,12 @@ func mainWork() {
 		for _, f := range fs {
 			violate(f.oracle, f.detail+" (fine-grained schedule: every sync operation a scheduling point)",
 				map[string]string{"prop": "C09", "cfg": c.String(), "decisions": dots(chosen(out.Decisions)), "mode": "fine", "source": "fine-grained",
-					"text": fmt.Sprintf("Work.Do(n=%d), children=%v, initial Adds=%v; fine-grained decisions %s", c.n, c.g, c.inits, dots(chosen(out.Decisions)))})
+					"text": fmt.Sprintf("Work.Do(n=%d), children=%v, initial Adds=%v; %s; fine-grained decisions %s", c.n, c.g, c.inits, itemsDesc(len(c.g)), dots(chosen(out.Decisions)))})
 		}
 	}
 	res.Exhaustive = false
 	_ = exhaustiveAll
-	res.Rule = fmt.Sprintf("real par.Work on the vsync scheduler (instrumented copy regenerated from the source): exhaustive DFS over all schedules with <= %d pre-emptions (cap %d runs per configuration) for n in 1..3 over %d item graphs of <= 5 nodes, incl. every Intn answer and every choice of the woken waiter; %d complete schedules drawn from the Coq model and replayed on the code; %d random / priority-based schedules for n <= 8 and random graphs of <= 24 items; every executed schedule is replayed on the extracted model (event trace + runnable set after every step); %d further random schedules at the granularity of single sync operations (direct oracles only); the model's own state space is explored exhaustively for the small configurations. A case is non-trivial when its schedule has a pre-emption, a park or a Signal wake-up; distinct = distinct (configuration, event trace).", bound, maxRuns, len(smallGraphs()), nModel, nRand, nFine)
+	res.Rule = fmt.Sprintf("real par.Work on the vsync scheduler (instrumented copy regenerated from the source): exhaustive DFS over all schedules with <= %d pre-emptions (cap %d runs per configuration) for n in 1..3 over %d configurations (item graphs of <= 7 nodes, empty initial sets included; items are Go values of mixed dynamic types whose printed forms collide), incl. every Intn answer and every choice of the woken waiter; %d complete schedules drawn from the Coq model and replayed on the code; %d random / priority-based schedules for n <= 8 and random graphs of <= 24 items; every executed schedule is replayed on the extracted model (event trace + runnable set after every step); %d further random schedules at the granularity of single sync operations (direct oracles only); the model's own state space is explored exhaustively for the small configurations. A case is non-trivial when its schedule has a pre-emption, a park or a Signal wake-up; distinct = distinct (configuration, event trace).", bound, maxRuns, len(smallGraphs()), nModel, nRand, nFine)
 }
 
 func parseSched(s string) [][2]int {
@@ -834,6 +901,9 @@ func randWorkCfg(r *common.RNG, maxN, maxItems int) workCfg {
 		for k := r.Intn(4); k > 0; k-- {
 			c.g[i] = append(c.g[i], r.Intn(ni))
 		}
+	}
+	if r.Intn(12) == 0 {
+		return c // Do on an empty work set
 	}
 	for k := 1 + r.Intn(3); k > 0; k-- {
 		c.inits = append(c.inits, r.Intn(ni))
@@ -1237,7 +1307,7 @@ func mainCache() {
 			}
 			if st.diverged != "" {
 				res.Violate(common.Violation{Kind: "correspondence", Oracle: "cache/model-schedule-on-code",
-					Input: map[string]string{"prop": "C10", "cfg": cfgs[i].String(), "schedule": strings.TrimPrefix(f[0], "sched="), "decisions": dots(chosen(out.Decisions))},
+					Input:  map[string]string{"prop": "C10", "cfg": cfgs[i].String(), "schedule": strings.TrimPrefix(f[0], "sched="), "decisions": dots(chosen(out.Decisions))},
 					Detail: st.diverged, Key: "model-sched:" + cfgs[i].String() + ":" + f[0]})
 			}
 			oneCache(cfgs[i], out, "model-walk")
@@ -1393,8 +1463,8 @@ func main() {
 		}
 		raceEvidence(what, d, true)
 		if prop == "C09" {
-			for k, g := range smallGraphs() {
-				c := workCfg{n: 2, g: g, inits: initsFor(g, k)}
+			for k, sg := range smallGraphs() {
+				c := workCfg{n: 2, g: sg.g, inits: initsFor(sg, k)}
 				modelExplore(fmt.Sprintf("workexplore %d %s %s %d", c.n, c.graphStr(), dots(c.inits), 3000000), c.String())
 			}
 		} else {
